@@ -67,7 +67,15 @@ func scribble(t *rapid.T, w *sim.World, v *appstate.AppState) int {
 	n := rapid.IntRange(1, 6).Draw(t, "scribbles")
 	for i := 0; i < n; i++ {
 		a := w.Actors[rapid.IntRange(0, len(w.Actors)-1).Draw(t, "victim")].Addr
-		switch rapid.IntRange(0, 5).Draw(t, "scribble") {
+		switch rapid.IntRange(0, 8).Draw(t, "scribble") {
+		case 6:
+			// a wasm deployment buffers the code outside the object caches
+			v.State.DeployWasmContract(a, rapid.SliceOfN(rapid.Byte(), 1, 64).Draw(t, "code"))
+		case 7:
+			v.State.DeployContract(a, common.Hash{byte(i + 1)}, big.NewInt(5))
+		case 8:
+			v.State.RemoveContractValue(a, []byte("k"))
+			v.State.SetFeePerGas(big.NewInt(int64(rapid.IntRange(1, 1<<30).Draw(t, "fpg"))))
 		case 0:
 			v.State.SetBalance(a, big.NewInt(int64(rapid.IntRange(0, 1<<40).Draw(t, "bal"))))
 		case 1:
@@ -161,6 +169,16 @@ func viewsTest(t *testing.T, steps int) {
 				}
 				if r.AppState.State.Root() != root || r.AppState.IdentityState.Root() != idRoot || r.AppState.State.Version() != ver {
 					t.Fatalf("speculative work on a %s view changed the canonical root/version", kind)
+				}
+				// a sibling view of the same head, taken afterwards and pre-committed without a single write, must still
+				// show the canonical roots: nothing of the discarded view may reach it through shared buffers
+				if sib, err := r.AppState.ForCheck(head); err == nil {
+					sib.State.Precommit(true)
+					sib.IdentityState.Precommit(true)
+					if sib.State.Root() != root || sib.IdentityState.Root() != idRoot {
+						t.Fatalf("after speculative work on a %s view a fresh, untouched check view of the same head pre-commits to another root", kind)
+					}
+					evid.Count("b.sibling_view_clean")
 				}
 				if d := diffImage(before, dbImage(r.DB)); d != "" {
 					t.Fatalf("speculative work on a %s view changed the database: %s", kind, d)
